@@ -108,7 +108,16 @@ def _pass_contract(name, loops=None, raises=(), tlist=None, extra=None, case=Non
 
 
 _W = {'0': {'bind': bind_elem_or_none('tlist', 'tidx', 'token')}}
-_pass_contract('group_identifier', loops=_W)
+def _ident_ghost(ex, st):
+    T = ex.W.T
+    st.ghost['NAMEP'] = ex.spec_fn('NEXTBY_PRED', [], {'i': None, 'm': None, 't': (T.String.Symbol, T.Name)}, st)[0][1]
+
+
+_pass_contract('group_identifier', loops={'0': {
+    'bind': bind_elem_or_none('tlist', 'tidx', 'token'),
+    # coverage: every Name / quoted-symbol leaf at this level becomes an Identifier node (C12 reads names from them)
+    'inv': ['NOMATCH(NAMEP, tlist, 0, len(tlist.tokens)) if token is None else NOMATCH(NAMEP, tlist, 0, tidx)']}},
+    extra={'ghost_init': staticmethod(_ident_ghost), 'ensures': ['NOMATCH(NAMEP, tlist, 0, len(tlist.tokens))']})
 _pass_contract('group_over', loops=_W)
 _pass_contract('group_aliased', loops=_W)
 _pass_contract('group_order', loops=_W)
@@ -139,7 +148,18 @@ def make_plain_group(ex, st):
     return g
 
 
-_pass_contract('group_where', loops=_W, tlist=make_plain_group)
+def _where_ghost(ex, st):
+    # the predicate "is an ungrouped WHERE keyword" exactly as group_where searches for it
+    st.ghost['OPENP'] = ex.spec_fn('NEXTBY_PRED', [], {'i': None, 'm': ex.W.sql.Where.M_OPEN, 't': None}, st)[0][1]
+
+
+_pass_contract('group_where', tlist=make_plain_group, loops={'0': {
+    'bind': bind_elem_or_none('tlist', 'tidx', 'token'),
+    # coverage (C13 "the Where node spans from WHERE ..." needs every WHERE to become a node): no ungrouped WHERE
+    # keyword is left behind the cursor
+    'inv': ['NOMATCH(OPENP, tlist, 0, len(tlist.tokens)) if token is None else NOMATCH(OPENP, tlist, 0, tidx)']}},
+    extra={'ghost_init': staticmethod(_where_ghost),
+           'ensures': ['NOMATCH(OPENP, tlist, 0, len(tlist.tokens))']})
 
 
 # --------------------------------------------------------------------------------- _group (the infix joiner)
